@@ -184,6 +184,19 @@ def verify_function(ip, con, fuel_note=None):
                 raise Unsupported('contract of %s names loop %d of callee %s which has %d loops' % (con.qual, ordinal, cq, len(cloops)))
             ip.loop_specs[id(cloops[ordinal - 1])] = spec if isinstance(spec, LoopSpec) else LoopSpec(**spec)
     ip.cuts = dict(con.cuts)
+    if con.cuts:
+        # a cut names a statement by its text: if the text no longer occurs in the function, the contract is out of date with the
+        # code (a refactoring, not a property violation) -- report that instead of letting the proof fail for a spurious reason
+        texts = set()
+        for n_ in ast.walk(fnode):
+            if isinstance(n_, ast.stmt):
+                try:
+                    texts.add(ast.unparse(n_).split('\n')[0].strip())
+                except Exception:
+                    pass
+        missing = [k for k in con.cuts if k not in texts]
+        if missing:
+            raise Unsupported('contract of %s is out of date: no statement reads %r' % (con.qual, missing[0]))
     ip.cur_func = con.qual
     try:
         for ci, case in enumerate(con.cases):
